@@ -153,7 +153,8 @@ def teardown(ctx):
 def plan(tier):
     m = 1 if tier == 'quick' else 20
     return [('history', 260 * m), ('rejection', 60 * m), ('mixed_table', 40 * m), ('readers', 2 if tier == 'quick' else 4),
-            ('constructor', 60 * m), ('repo_tests', 5 if tier == 'quick' else len(REPO_TEST_FILES))]
+            ('constructor', 60 * m), ('repo_tests', 5 if tier == 'quick' else len(REPO_TEST_FILES))] + \
+        [('foreign:' + p, 6 if tier == 'quick' else 150) for p in FOREIGN]
 
 
 # ------------------------------------------------------------------------------------------
@@ -589,7 +590,44 @@ def case_repo_tests(ctx, idx):
     ctx.nontrivial.add(digest('repo_tests', REPO_TEST_FILES[idx]))
 
 
+# ------------------------------------------------------------------------------------------
+# The workloads of the other properties as additional workload for the invariant monitor: their
+# own oracles record into a scratch context (they are judged by their own checks), the producer taps
+# of this check stay installed, so every observable those workloads make the library return -
+# fits with priors, GEVP, readers of synthetic file sets, round trips ... - passes the C04 predicate.
+FOREIGN = ['C05', 'C06', 'C07', 'C08', 'C09', 'C10', 'C11', 'C12', 'C13', 'C14', 'C15', 'C16', 'C17', 'C19', 'C20']
+_foreign = {}
+
+
+def case_foreign(ctx, prop, idx):
+    import importlib
+    from ..worker import case_rng, expand_plan, interleave
+    if prop not in _foreign:
+        mod = importlib.import_module('vmon.props.' + prop)
+        fctx = ctx.trial()
+        fctx.tier = 'quick'
+        if hasattr(mod, 'setup'):
+            mod.setup(fctx)          # their taps stack on top of ours
+        _foreign[prop] = (mod, fctx, interleave(expand_plan(mod.plan('quick'))))
+    mod, fctx, cases = _foreign[prop]
+    kind, i = cases[(idx * 7919) % len(cases)]
+    before = ctx.counters.get('producer_returns_checked', 0)
+    fctx.case = (kind, i)
+    try:
+        mod.run_case(fctx, kind, i, case_rng(ctx.seed, prop, kind, i))
+    except Skip:
+        pass
+    except Exception as e:
+        # whatever goes wrong inside a foreign workload is that property's business
+        ctx.count('foreign_case_raised')
+    ctx.count('foreign_cases:' + prop)
+    ctx.count('foreign_producer_returns', ctx.counters.get('producer_returns_checked', 0) - before)
+    ctx.cell('foreign', prop)
+
+
 def run_case(ctx, kind, idx, rng):
+    if kind.startswith('foreign:'):
+        return case_foreign(ctx, kind.split(':')[1], idx)
     if kind == 'repo_tests':
         return case_repo_tests(ctx, idx)
     if kind == 'history':
